@@ -19,10 +19,12 @@ RULE = ("one run = 1-4 simulated threads, each with a generated program (<= dept
         "parallel_backend blocks over the 8 settings, exits by fall-through or exception, Parallel(...) with random "
         "explicit arguments, get_active_backend probes, contexts whose construction fails, threads spawned inside a block) x seeded interleaving at "
         "statement and line level; distinct = digest of (thread, event) sequence; non-trivial = at least two threads "
-        "had overlapping context blocks or a block was left by an exception")
+        "had overlapping context blocks or a block was left by an exception.  Executor tier (15%, one thread): every object that "
+        "resolves to loky with several jobs enters its with-block; the temp_folder of the reusable executor it gets must be the one in force")
 REAL_CODE = ["joblib.parallel.parallel_config / parallel_backend", "_get_config_param", "_get_active_backend",
-             "Parallel.__init__", "threading.local"]
-STUBBED = ["thread scheduling (baton scheduler); nothing of joblib is stubbed"]
+             "Parallel.__init__", "threading.local", "executor tier: LokyBackend.configure, MemmappingExecutor.get_memmapping_executor, "
+             "loky get_reusable_executor (the executor object is built; no task is submitted, no process started)"]
+STUBBED = ["thread scheduling (baton scheduler); nothing of joblib is stubbed", "executor tier: the resource-tracker client functions (no tracker process)"]
 ASSUMPTIONS = ["reference model = stack of dicts per thread; explicit > innermost context > outer > default; "
                "require='sharedmem' => shared-memory backend or ValueError; prefer ignored when a backend is explicit; "
                "the n_jobs of a context backend is dropped when that backend is overridden by the thread fall-back"]
@@ -69,8 +71,28 @@ def gen_prog(rng, depth=0, allow_spawn=True):
 
 def gen_case(rng):
     nt = rng.choice([1, 2, 2, 3, 4])
-    return {"threads": [gen_prog(rng) for _ in range(nt)], "strategy": ds.draw_strategy(rng),
+    case = {"threads": [gen_prog(rng) for _ in range(nt)], "strategy": ds.draw_strategy(rng),
             "sched_seed": rng.randrange(1 << 31)}
+    if rng.random() < 0.15:
+        # one thread; every Parallel object that ends up with the loky backend and several jobs also enters its with-block,
+        # and the temporary folder of the (process-wide, reusable) executor it gets is compared with the setting in force
+        case["threads"] = case["threads"][:1]
+        case["executor_tier"] = True
+
+        def more_folders(prog):
+            prog[:] = [st for st in prog if st[0] != "spawn"]      # (one thread only: the executor is a process-wide singleton
+            for st in prog:                                         #  behind a lock that the simulator does not own)
+                fr = st[1] if st[0] == "par" else (st[1]["frame"] if st[0] in ("ctx", "badctx") else None)
+                if isinstance(fr, dict) and (("temp_folder" in fr) or rng.random() < 0.3) and not (st[0] == "ctx" and st[1]["pb"]):
+                    fr["temp_folder"] = rng.choice(["/tmp/a", "/tmp/b", "/tmp/c", None])
+                if st[0] == "par" and rng.random() < 0.5:
+                    st[1].setdefault("backend", "loky"); st[1].setdefault("n_jobs", rng.choice([2, 3]))
+                if st[0] == "ctx":
+                    more_folders(st[1]["body"])
+                elif st[0] == "spawn":
+                    more_folders(st[1])
+        more_folders(case["threads"][0])
+    return case
 
 
 def plan(tier, seed):
@@ -98,6 +120,9 @@ def _active(ctx, prefer, require):
     elif not explicit_ctx and prefer == "processes" and THREADS[active]:
         active = "loky"
     return active, forced, explicit_ctx
+
+
+EXECUTOR_TIER = [False]
 
 
 def model_par(stack, explicit):
@@ -131,7 +156,10 @@ def model_par(stack, explicit):
     mx = memstr_to_bytes(mx) if isinstance(mx, str) else mx
     kw = dict(max_nbytes=mx, temp_folder=res("temp_folder"), mmap_mode=res("mmap_mode"), prefer=prefer,
               require=require, verbose=max(0, res("verbose") - 50))
-    return [CLSNAME[final], nj, kw, res("verbose")]
+    out = [CLSNAME[final], nj, kw, res("verbose")]
+    if EXECUTOR_TIER[0] and final == "loky" and nj != 1:
+        out.append(res("temp_folder"))         # where the executor this object gets puts its temporary files
+    return out
 
 
 def model_probe(stack):
@@ -172,6 +200,15 @@ def run_case(case):
     sys.stdout = open(os.devnull, "w")          # verbose >= 10 prints the fall-back decision
     s = ds.run_sim(case["sched_seed"], None, decisions=case.get("decisions"), strategy=case.get("strategy"),
                    trace_files=("joblib/parallel.py",), max_steps=200000, max_time=100.0)
+    EXECUTOR_TIER[0] = bool(case.get("executor_tier"))
+    if EXECUTOR_TIER[0]:
+        # the real reusable executor object is built (no task is submitted, so no worker process is started); the
+        # resource tracker client is stubbed so that no tracker process is spawned either
+        import types as _types, joblib._memmapping_reducer as _jmr
+        _jmr.resource_tracker = _types.SimpleNamespace(register=lambda *a: None, unregister=lambda *a: None,
+                                                       maybe_unlink=lambda *a: None, ensure_running=lambda *a: None)
+        import joblib.externals.loky.backend.resource_tracker as _lrt        # (named semaphores of the executor's queues)
+        _lrt.register = _lrt.unregister = _lrt.maybe_unlink = _lrt.ensure_running = lambda *a: None
     mism = []
     stats = {"blocks": 0, "overlap": 0, "raised": 0, "pars": 0, "probes": 0, "spawned": 0}
     open_blocks = [0]
@@ -181,9 +218,17 @@ def run_case(case):
         try:
             p = Parallel(**ex)
             kw = {k: p._backend_kwargs[k] for k in ("max_nbytes", "temp_folder", "mmap_mode", "prefer", "require", "verbose")}
-            return [type(p._backend).__name__, p.n_jobs, kw, p.verbose]
+            out = [type(p._backend).__name__, p.n_jobs, kw, p.verbose]
         except ValueError:
             return "ValueError"
+        if EXECUTOR_TIER[0] and out[0] == "LokyBackend" and p.n_jobs != 1:
+            stats["executors_requested"] = stats.get("executors_requested", 0) + 1
+            try:
+                with p:
+                    out.append(getattr(p._backend._workers._temp_folder_manager, "_temp_folder_root", "?"))
+            except Exception as e:  # noqa
+                out.append("EXC:%s:%s" % (type(e).__name__, str(e)[:80]))
+        return out
 
     def observe_probe():
         try:
